@@ -710,6 +710,12 @@ pub fn gen_trace(seed: u64, profile: &str) -> UTrace {
             return t;
         }
     }
+    finish_trace(w, t)
+}
+
+/// drain, status at rest, and the epilogue (after close: later calls must fail with Closed and
+/// hand objects back)
+fn finish_trace(mut w: UWorld, mut t: UTrace) -> UTrace {
     t.lines.push("# drain".into());
     if !drain(&mut w, &mut t) {
         std::mem::forget(w);
@@ -720,7 +726,6 @@ pub fn gen_trace(seed: u64, profile: &str) -> UTrace {
         std::mem::forget(w);
         return t;
     }
-    // after close: later calls must fail with Closed and hand objects back
     t.lines.push("# epilogue".into());
     for s in [USpec::TryGet, USpec::Get(Some(Tmo::None)), USpec::TryAdd, USpec::Add, USpec::TryRemove, USpec::Status] {
         if !run_alone(&mut w, s, &mut t) {
@@ -730,6 +735,182 @@ pub fn gen_trace(seed: u64, profile: &str) -> UTrace {
     }
     w.finish();
     t
+}
+
+// ---------------------------------------------------------------- systematic small scopes
+
+/// an operation of a scenario; objects in the callers' hands are named by position
+#[derive(Clone, Debug)]
+pub enum ScOp {
+    Plain(USpec),
+    RetHand(usize),
+    TakeHand(usize),
+}
+
+impl ScOp {
+    fn name(&self) -> String {
+        match self {
+            ScOp::Plain(s) => s.line().replace("start ", "").replace(' ', "_"),
+            ScOp::RetHand(k) => format!("ret_hand{k}"),
+            ScOp::TakeHand(k) => format!("take_hand{k}"),
+        }
+    }
+    fn resolve(&self, w: &UWorld) -> Option<USpec> {
+        let hands = w.hand_ids();
+        Some(match self {
+            ScOp::Plain(s) => s.clone(),
+            ScOp::RetHand(k) => USpec::Ret(*hands.get(*k)?),
+            ScOp::TakeHand(k) => USpec::Take(*hands.get(*k)?),
+        })
+    }
+}
+
+/// the menu the scenarios are built from: a pool of max_size 2 holding one queued object and
+/// one object in a caller's hands
+pub fn scenario_menu() -> Vec<ScOp> {
+    vec![
+        ScOp::Plain(USpec::TryGet),
+        ScOp::Plain(USpec::Get(Some(Tmo::None))),
+        ScOp::RetHand(0),
+        ScOp::TakeHand(0),
+        ScOp::Plain(USpec::TryAdd),
+        ScOp::Plain(USpec::Add),
+        ScOp::Plain(USpec::Close),
+        ScOp::Plain(USpec::TryRemove),
+        ScOp::Plain(USpec::Status),
+    ]
+}
+
+/// all 3-subsets of the menu, plus pairs of the same operation with a third one
+pub fn scenarios() -> Vec<Vec<ScOp>> {
+    let m = scenario_menu();
+    let mut v = Vec::new();
+    for a in 0..m.len() {
+        for b in a + 1..m.len() {
+            for c in b + 1..m.len() {
+                v.push(vec![m[a].clone(), m[b].clone(), m[c].clone()]);
+            }
+        }
+    }
+    // two getters / two adders racing with a close or a return
+    for x in [0usize, 1, 4, 5] {
+        for y in [2usize, 6] {
+            if !matches!(m[x], ScOp::RetHand(_) | ScOp::TakeHand(_)) {
+                v.push(vec![m[x].clone(), m[x].clone(), m[y].clone()]);
+            }
+        }
+    }
+    v
+}
+
+/// one schedule of a scenario: follows `path` (choice index at every decision, 0 beyond its end);
+/// returns the trace, the choices taken and the number of options at every decision
+fn run_schedule(ops: &[ScOp], path: &[usize], budget: usize) -> (UTrace, Vec<usize>, Vec<usize>) {
+    let cfg = UCfg { max: 2, init: 0, rt: true, tmo: Tmo::None, ctor: "new".into() };
+    let mut t = UTrace { lines: vec![cfg.line()], error: None };
+    let mut w = UWorld::new(cfg);
+    let (mut taken, mut widths) = (Vec::new(), Vec::new());
+    t.lines.push("# setup".into());
+    for s in [USpec::TryAdd, USpec::TryAdd, USpec::TryGet] {
+        if !run_alone(&mut w, s, &mut t) {
+            std::mem::forget(w);
+            return (t, taken, widths);
+        }
+    }
+    t.lines.push("# main".into());
+    // starting an operation is a scheduling decision like any other step: an operation may
+    // begin after another one has run to its end
+    let mut pending: Vec<ScOp> = ops.to_vec();
+    let mut mine: Vec<usize> = Vec::new();
+    let mut last: Option<usize> = None;
+    let mut left = budget;
+    #[derive(Clone, Copy, PartialEq)]
+    enum Choice {
+        Step(usize),
+        Start(usize),
+    }
+    for _ in 0..400 {
+        let enabled: Vec<usize> = mine
+            .iter()
+            .copied()
+            .filter(|i| {
+                let op = w.sched.op(*i);
+                !op.done && !(op.susp && !w.woken(*i)) && w.enabled(*i).contains(&Outcome::Run)
+            })
+            .collect();
+        let mut all: Vec<Choice> = enabled.iter().map(|i| Choice::Step(*i)).collect();
+        for k in 0..pending.len() {
+            if pending[k].resolve(&w).is_some() {
+                all.push(Choice::Start(k));
+            }
+        }
+        if all.is_empty() {
+            break;
+        }
+        // with no preemption left the running operation goes on for as long as it can
+        let options: Vec<Choice> = match last {
+            Some(l) if left == 0 && enabled.contains(&l) => vec![Choice::Step(l)],
+            _ => all.clone(),
+        };
+        let d = taken.len();
+        let c = path.get(d).copied().unwrap_or(0).min(options.len() - 1);
+        taken.push(c);
+        widths.push(options.len());
+        let choice = options[c];
+        if let Some(l) = last {
+            if choice != Choice::Step(l) && enabled.contains(&l) {
+                left = left.saturating_sub(1);
+            }
+        }
+        match choice {
+            Choice::Step(i) => {
+                last = Some(i);
+                if !act(&mut w, &UAction::Step(i, Outcome::Run), &mut t) {
+                    std::mem::forget(w);
+                    return (t, taken, widths);
+                }
+            }
+            Choice::Start(k) => {
+                let spec = pending.remove(k).resolve(&w).unwrap();
+                if !act(&mut w, &UAction::Start(spec), &mut t) {
+                    std::mem::forget(w);
+                    return (t, taken, widths);
+                }
+                let i = w.sched.n_ops() - 1;
+                mine.push(i);
+                last = Some(i);
+            }
+        }
+    }
+    (finish_trace(w, t), taken, widths)
+}
+
+/// every schedule of the scenario with at most `budget` preemptions (depth-first), at most `limit`
+pub fn exhaust(ops: &[ScOp], budget: usize, limit: usize, mut emit: impl FnMut(&UTrace, &str)) -> usize {
+    let name: Vec<String> = ops.iter().map(|o| o.name()).collect();
+    let mut path: Vec<usize> = Vec::new();
+    let mut n = 0usize;
+    loop {
+        let (t, taken, widths) = run_schedule(ops, &path, budget);
+        n += 1;
+        emit(&t, &format!("scenario={} budget={} schedule={}", name.join("+"), budget, n));
+        if t.error.as_deref().map(|e| e.starts_with("HANG")).unwrap_or(false) || n >= limit {
+            return n;
+        }
+        // next schedule: flip the deepest decision that has an untried option
+        let mut d = taken.len();
+        loop {
+            if d == 0 {
+                return n;
+            }
+            d -= 1;
+            if taken[d] + 1 < widths[d] {
+                path = taken[..d].to_vec();
+                path.push(taken[d] + 1);
+                break;
+            }
+        }
+    }
 }
 
 pub fn replay(lines: &[String]) -> UTrace {
